@@ -474,10 +474,18 @@ struct Chunked<'a> {
     data: &'a [u8],
     pos: usize,
     chunk: usize,
+    /// the read call (counted from 0) that reports `ErrorKind::Interrupted` once, if any
+    interrupt_at: Option<usize>,
+    calls: usize,
 }
 
 impl Read for Chunked<'_> {
     fn read(&mut self, buf: &mut [u8]) -> std::io::Result<usize> {
+        let call = self.calls;
+        self.calls += 1;
+        if self.interrupt_at == Some(call) {
+            return Err(std::io::Error::new(std::io::ErrorKind::Interrupted, "EINTR"));
+        }
         let n = buf.len().min(self.chunk).min(self.data.len() - self.pos);
         buf[..n].copy_from_slice(&self.data[self.pos..self.pos + n]);
         self.pos += n;
@@ -487,8 +495,13 @@ impl Read for Chunked<'_> {
 
 /// decode through the io reader; returns (outcome, bytes taken from the underlying reader)
 pub fn dec_io(bytes: &[u8], chunk: usize) -> (DecOut, usize) {
+    dec_io_interrupted(bytes, chunk, None)
+}
+
+/// the same with one retryable `Interrupted` reported by the stream at the given read call
+pub fn dec_io_interrupted(bytes: &[u8], chunk: usize, interrupt_at: Option<usize>) -> (DecOut, usize) {
     let r = std::panic::catch_unwind(|| {
-        let mut src = Chunked { data: bytes, pos: 0, chunk };
+        let mut src = Chunked { data: bytes, pos: 0, chunk, interrupt_at, calls: 0 };
         let out = {
             let reader = serde_amqp::read::IoReader::new(&mut src);
             let mut de = serde_amqp::de::Deserializer::new(reader);
@@ -696,6 +709,8 @@ pub fn main(opts: &Opts) {
     }
     report.count_n("corpus_values", corpus_values.len() as u64);
 
+    long_bodies(&mut report, &prop);
+
     for k in 0..(n_values + corpus_values.len() as u64) {
         let v = if (k as usize) < corpus_values.len() { corpus_values[k as usize].clone() } else { gen_value(&mut rng, 4, true) };
         let text = show(&v);
@@ -765,6 +780,19 @@ pub fn main(opts: &Opts) {
                 if let DecOut::Ok { rest, .. } = &o {
                     if *rest == usize::MAX || taken != tail.len() - rest {
                         report.finding(Finding { kind: "violation", key: format!("io-overread:{}", class), description: format!("io reader took {} bytes from the stream for a value of {} bytes (chunk {})", taken, tail.len().wrapping_sub(*rest), chunk), replay: json!({"property": prop, "module": "codec", "value": text, "bytes": hx(&tail)}) });
+                    }
+                }
+            }
+            // a stream may report a retryable interruption at any read call: the result must not change
+            if tail.len() <= 48 {
+                for chunk in [1usize, 5] {
+                    for at in 0..(tail.len() + 3) {
+                        let (o, _) = dec_io_interrupted(&tail, chunk, Some(at));
+                        report.count("io_interrupted");
+                        if o != s {
+                            report.finding(Finding { kind: "violation", key: format!("io-vs-slice:interrupted-read:{}", class), description: format!("slice reader: {:?}; io reader (chunks of {}, read call {} interrupted once): {:?}", s, chunk, at, o), replay: json!({"property": prop, "module": "codec", "value": text, "bytes": hx(&tail), "interrupt_at": at}) });
+                            break;
+                        }
                     }
                 }
             }
@@ -912,6 +940,58 @@ pub fn main(opts: &Opts) {
     report.findings.retain(|f| f.kind != "violation" || relevant(&f.key));
     report.write(&opts.report);
     println!("codec: {} cases, {} non-trivial, {} findings", report.evaluations, report.nontrivial.len(), report.findings.len());
+}
+
+/// variable-width bodies around the 64 KiB pieces in which the readers take long bodies: round trip,
+/// size and slice = stream on the implementation (the model covers these lengths by the theorems;
+/// lines of this size are not sent to the driver)
+fn long_bodies(report: &mut Report, prop: &str) {
+    for len in [65535usize, 65536, 65537, 70001, 131072, 131073, 196609] {
+        let bytes: Vec<u8> = (0..len).map(|i| (i * 31 + len) as u8).collect();
+        let text: String = (0..len).map(|i| (b'a' + ((i * 7 + len) % 26) as u8) as char).collect();
+        let values = [
+            Value::Binary(serde_bytes::ByteBuf::from(bytes.clone())),
+            Value::String(text.clone()),
+            Value::Symbol(Symbol::from(text.clone())),
+            Value::List(vec![Value::Uint(7), Value::Binary(serde_bytes::ByteBuf::from(bytes.clone())), Value::String("after".into())]),
+        ];
+        for v in values.iter() {
+            report.evaluations += 1;
+            report.count("long_bodies");
+            let what = match v {
+                Value::Binary(_) => "binary",
+                Value::String(_) => "string",
+                Value::Symbol(_) => "symbol",
+                _ => "list-holding-a-binary",
+            };
+            let replay = json!({"property": prop, "module": "codec", "long_body": what, "length": len});
+            let enc = match serde_amqp::to_vec(v) {
+                Ok(b) => b,
+                Err(e) => {
+                    report.finding(Finding { kind: "violation", key: "encode-error:in-scope".into(), description: format!("to_vec of a {} of {} bytes failed: {:?}", what, len, e), replay });
+                    continue;
+                }
+            };
+            match serde_amqp::from_slice::<Value>(&enc) {
+                Ok(w) if w == *v => {}
+                r => report.finding(Finding { kind: "violation", key: "roundtrip:in-scope".into(), description: format!("a {} of {} bytes does not come back from its encoding: {}", what, len, match r { Ok(_) => "a different value".to_string(), Err(e) => format!("{:?}", e) }), replay: replay.clone() }),
+            }
+            match serde_amqp::serialized_size(v) {
+                Ok(n) if n == enc.len() => {}
+                r => report.finding(Finding { kind: "violation", key: "size:in-scope".into(), description: format!("serialized_size of a {} of {} bytes = {:?}, the encoding has {} bytes", what, len, r.ok(), enc.len()), replay: replay.clone() }),
+            }
+            for chunk in [1usize << 20, 65536, 4099] {
+                let src = Chunked { data: &enc, pos: 0, chunk, interrupt_at: None, calls: 0 };
+                match serde_amqp::from_reader::<Value>(src) {
+                    Ok(w) if w == *v => {}
+                    r => {
+                        report.finding(Finding { kind: "violation", key: "io-vs-slice:in-scope".into(), description: format!("from_reader (chunks of {}) of a {} of {} bytes: {}", chunk, what, len, match r { Ok(_) => "a different value".to_string(), Err(e) => format!("{:?}", e) }), replay: replay.clone() });
+                        break;
+                    }
+                }
+            }
+        }
+    }
 }
 
 fn typed_samples() -> Vec<Vec<u8>> {
